@@ -231,9 +231,20 @@ def run_keys(case, acc):
         else:
             run = H.drive(w, connect_kwargs=dict(ping_rate=0))
             ws = run.ws
-        k = refhttp.request_key(bytes(w.conns[0].tx))
+        raw = bytes(w.conns[0].tx)
+        k = refhttp.request_key(raw)
         keys.append(k)
         acc.count2('request', 'keys_compared')
+        try:
+            r = refhttp.parse_request(raw[:raw.find(b'\r\n\r\n') + 4])
+            for hn in (b'sec-websocket-key', b'host', b'upgrade', b'connection', b'sec-websocket-version'):
+                if len(r['hmap'].get(hn, [])) != 1:
+                    acc.violation('request-header-repeated-or-missing-on-reconnect', 'C10 connect #%d: header %r appears %d times' % (
+                        j, hn, len(r['hmap'].get(hn, []))), case, dict(request=raw[:400]))
+                    return
+        except ValueError as e:
+            acc.violation('malformed-request', 'C10 connect #%d: %s' % (j, e), case, dict(request=raw[:400]))
+            return
     if len(set(keys)) != len(keys) or None in keys:
         acc.violation('handshake-key-repeated', 'C10 %d connects gave %d distinct keys (same object=%s)' % (
             len(keys), len(set(keys)), case['same']), case, dict(sample=keys[:5]))
